@@ -14,10 +14,18 @@ Inductive ev := Give (p : positive) | Half | Fault.
 Record reader := mkR { rdata : list N; revs : list ev }.
 Inductive rerr := RNil | REOF | RFault.
 
+(* min(n, p) in O(min(n, p)) steps: the buffer of a Read call can be 2^20 bytes long (ReadBytes), the chunk of a
+   scripted reader 2^40; neither is ever converted to the other's number type *)
+Fixpoint min_np (n : nat) (p : positive) : nat :=
+  match n with
+  | O => O
+  | S n' => match p with xH => 1 | _ => S (min_np n' (Pos.pred p)) end
+  end.
+
 (* bytes handed out by one Read call with a buffer of [want] > 0 bytes on non-empty data: at least 1, at most want *)
 Definition chunk_of (e : ev) (want : nat) : nat :=
   match e with
-  | Give p => N.to_nat (N.min (N.of_nat want) (Npos p))
+  | Give p => min_np want p
   | Half => (want + 1) / 2
   | Fault => 0
   end.
